@@ -125,6 +125,7 @@ type world struct {
 	byDeploys   int
 	byTeardowns int
 	byResvOK    bool
+	misrouted   int
 }
 
 type freePlan struct {
@@ -382,6 +383,13 @@ func (w *world) sink(ev veriftrace.Event) {
 					}
 				case "exit":
 					w.byExited = true
+				case "recv-update", "recv-teardown":
+					// a request the service routed for the lease under test ended up in the bystander's manager:
+					// the rendezvous is over, do not wait for our manager to take it (the verdict will show the rest)
+					if w.pendingInbox > 0 {
+						w.pendingInbox--
+						w.misrouted++
+					}
 				}
 			} else {
 				w.foreign++
@@ -898,7 +906,7 @@ func (w *world) observe() (resvHeld, hnHeld, ok bool) {
 func (w *world) bystanderStatus() string {
 	w.mu.Lock()
 	by, shut := w.bystander, w.svcShutReq
-	td, ex, st, rok := w.byTeardowns, w.byExited, w.byState, w.byResvOK
+	td, ex, st, rok, mis := w.byTeardowns, w.byExited, w.byState, w.byResvOK, w.misrouted
 	w.mu.Unlock()
 	if !by {
 		return "-"
@@ -915,6 +923,8 @@ func (w *world) bystanderStatus() string {
 	case <-time.After(10 * time.Second):
 	}
 	switch {
+	case mis > 0:
+		return "disturbed: took a request routed for the lease under test"
 	case td > 0:
 		return "disturbed: torn down"
 	case ex:
